@@ -12,11 +12,17 @@ MANIFEST = dict(
          "is never below either input, merged estimate >= min(est_a + est_b, 2^32-1).  Log (C09_log_*): exact sum in the "
          "reserved range, maximum counter once the decoded sum reaches max_count, otherwise the counter nearest to the "
          "decoded sum.  Tied to the code by setting counter tables directly on real sketches (values within 2 of the ceiling, "
-         "all counter pairs for log8) and comparing merge results, both operands and counters with the model in Coq.",
+         "all counter pairs for log8) and comparing merge results, both operands and counters with the model in Coq; general float "
+         "lemmas (every table): commutativity, exact sum in the reserved range, and a linear-size table check that implies "
+         "never-below-either-input for all pairs (covers log16).",
     design_ref="DESIGN.md section 6, C09",
     note="Trusted: Coq kernel + vm_compute; transcriptions CmsLinear.v / CmsLog.v; the model's merge is a pure function, so "
-         "'b unchanged' is observed on the implementation (byte comparison) rather than proved; uint64 wrap of the counters "
-         "out of scope.  Theorems closed under the global context.",
+         "'b unchanged' (also under later operations: no shared state) is observed on the implementation rather than proved; "
+         "uint64 wrap of the counters out of scope.  Linear theorems and the reflected grid theorems are closed under the global "
+         "context (kernel float primitives are listed by Print Assumptions); C09_log_comm / C09_log_reserved / "
+         "C09_log_tables_sound use the standard library's FloatAxioms and Uint63 axioms and, through Flocq's PrimFloat bridge, the "
+         "real-number axioms (sig_forall_dec, sig_not_dec, functional_extensionality_dep, classic).  'Nearest' is proved per "
+         "configuration by reflection over all counter pairs (exhaustive for log8 configurations), not for every table.",
     technique="Coq proof (cell-wise saturating sum algebra) + vm_compute correspondence on directly assigned tables")
 
 
